@@ -609,6 +609,50 @@ func taskScripts() []gen {
 	for _, l := range lambdas() {
 		r = append(r, gen{false, src + "|where(lambda: " + l + ")"})
 	}
+	// escapes at every position of a reference / a string: all names of up to 3 symbols over {a, escaped quote, space, backslash pair}
+	for _, n := range escNames([]string{"a", `\"`, " ", `\\`}) {
+		r = append(r, gen{false, src + `|where(lambda: "` + n + `" > 1)`})
+		r = append(r, gen{false, src + `|eval(lambda: "` + n + `" + 1).as('x')`})
+	}
+	for _, n := range escNames([]string{"a", `\'`, " ", `"`}) {
+		r = append(r, gen{false, src + `|log().prefix('` + n + `')`})
+		r = append(r, gen{false, src + `|where(lambda: "a" == '` + n + `')`})
+	}
+	// nodes with several parents: every choice of receiver and argument order among variables declared in a fixed order
+	for _, batch := range []bool{false, true} {
+		decl := ""
+		for _, v := range []string{"a", "b", "c"} {
+			if batch {
+				decl += "var " + v + " = batch|query('SELECT v FROM \"db\".\"rp\".\"" + v + "\"').period(1m).every(1m)\n"
+			} else {
+				decl += "var " + v + " = stream|from().measurement('" + v + "')\n"
+			}
+		}
+		for _, perm := range [][]string{{"a", "b"}, {"b", "a"}, {"c", "a"}, {"a", "b", "c"}, {"a", "c", "b"}, {"b", "a", "c"}, {"b", "c", "a"}, {"c", "a", "b"}, {"c", "b", "a"}} {
+			args, names := strings.Join(perm[1:], ", "), "'"+strings.Join(perm, "', '")+"'"
+			r = append(r, gen{batch, decl + perm[0] + "|join(" + args + ").as(" + names + ")|log()"})
+			r = append(r, gen{batch, decl + perm[0] + "|join(" + args + ").as(" + names + ").fill('null').tolerance(1s)|log()\n" + perm[len(perm)-1] + "|log()"})
+			r = append(r, gen{batch, decl + perm[0] + "|union(" + args + ")|log()"})
+		}
+	}
+	return r
+}
+
+func escNames(syms []string) []string {
+	var r []string
+	var rec func(pre string, n int)
+	rec = func(pre string, n int) {
+		if n > 0 && strings.TrimSpace(pre) != "" {
+			r = append(r, pre)
+		}
+		if n == 3 {
+			return
+		}
+		for _, s := range syms {
+			rec(pre+s, n+1)
+		}
+	}
+	rec("", 0)
 	return r
 }
 
